@@ -1,6 +1,6 @@
 module ruxverif/harness
 
-go 1.19
+go 1.21
 
 require github.com/gookit/rux v0.0.0
 
